@@ -80,19 +80,79 @@ def rule_dispatch(ctx, R, F):
                 R.check(cb['secure'] is not None, 'case %d: compiled class has a secureJit parameter' % lab, loc(n, f), expected='bool', found=cb['secure'])
         last = groups[lab][-1]
         R.check(last['k'] == 'Break', 'case %d ends with break (no fall-through)' % lab, loc(last, f), expected='break', found=last['k'])
-    # after construction: bind cache / dataset, then allocate
-    seq = []
+    # after construction (normal, non-throwing flow: the rest of the try block followed by what comes after it): on every path a non-null cache is bound
+    # and its key recorded, a non-null dataset is bound, and the VM is allocated -- wherever these statements sit and however they are grouped
+    import decoder as _dec
+    tries = [x for x in walk(f['body']) if x['k'] == 'Try']
+    if len(tries) != 1:
+        raise AnalysisBroken('VM-DISPATCH: expected one try block in randomx_create_vm')
+    top = f['body']['s']
+    after_try = top[[i for i, x in enumerate(top) if x is tries[0]][0] + 1:] if any(x is tries[0] for x in top) else []
+    flow = {'k': 'Compound', 's': list(tries[0]['b']['s'][1:]) + list(after_try)}
+    cid, did = f['params'][1]['id'], f['params'][2]['id']
+    vm_ids = set()
+    for x in walk(f['body']):
+        if x['k'] == 'Decl':
+            for d_ in x['d']:
+                if 'randomx_vm' in (d_.get('ty') or '') and '*' in (d_.get('ty') or ''):
+                    vm_ids.add(d_['id'])
+
+    def pev(n, asg):
+        """truth of a pointer test under {decl id: non-null?}; None = not a pointer test"""
+        n = strip_all(n)
+        if n['k'] == 'Bin' and n['op'] in ('&&', '||'):
+            a_, b_ = pev(n['l'], asg), pev(n['r'], asg)
+            if n['op'] == '&&':
+                return False if (a_ is False or b_ is False) else (None if None in (a_, b_) else True)
+            return True if (a_ is True or b_ is True) else (None if None in (a_, b_) else False)
+        if n['k'] == 'Un' and n.get('op') == '!':
+            a_ = pev(n['e'], asg)
+            return None if a_ is None else not a_
+        if n['k'] == 'Bin' and n['op'] in ('!=', '=='):
+            for x_, y_ in ((n['l'], n['r']), (n['r'], n['l'])):
+                xs, ys = strip_all(x_), strip_all(y_)
+                while xs['k'] == 'Cast':
+                    xs = strip_all(xs['e'])
+                while ys['k'] == 'Cast':
+                    ys = strip_all(ys['e'])
+                if xs['k'] == 'Ref' and xs.get('id') in asg and (ys['k'] == 'Null' or val(ys) == 0):
+                    return asg[xs['id']] == (n['op'] == '!=')
+            return None
+        while n['k'] == 'Cast':
+            n = strip_all(n['e'])
+        if n['k'] == 'Ref' and n.get('id') in asg:
+            return asg[n['id']]
+        return None
+    bad = []
+    npaths = 0
+    all_paths = _dec.paths(flow)
     with astq.renaming({p['id']: 'P%d' % i for i, p in enumerate(f['params'])}), astq.nocasts():
-        tries = [x for x in walk(f['body']) if x['k'] == 'Try']
-        for s in tries[0]['b']['s'][1:] if tries else []:
-            if s['k'] == 'If':
-                seq.append('if %s: %s' % (showv(s['c']), [showv(y) for y in (s['t']['s'] if s['t']['k'] == 'Compound' else [s['t']])]))
-            else:
-                seq.append(showv(s))
-    exp = ["if (P1 != nullptr): ['vm.setCache(P1)', 'std::basic_string<char>::operator=(vm->cacheKey, P1->cacheKey)']", "if (P2 != nullptr): ['vm.setDataset(P2)']", 'vm.allocate()']
-    norm = [re.sub(r"'\(vm->cacheKey = P1->cacheKey\)'|'\(vm->cacheKey operator= P1->cacheKey\)'|'vm->cacheKey\.operator=\(P1->cacheKey\)'|'\(vm->cacheKey = P1->cacheKey\)'", "'std::basic_string<char>::operator=(vm->cacheKey, P1->cacheKey)'", s) for s in seq]
-    norm = [re.sub(r"'\(vm->cacheKey = P1->cacheKey\)'", "'std::basic_string<char>::operator=(vm->cacheKey, P1->cacheKey)'", s) for s in norm]
-    R.check(len(norm) == 3 and 'vm.setCache(P1)' in norm[0] and 'cacheKey' in norm[0] and norm[1] == exp[1] and norm[2] == exp[2], 'bind then allocate', '%s:%d' % (f['file'], f['line']), expected=exp, found=seq)
+        for c_nn in (False, True):
+            for d_nn in (False, True):
+                asg = {cid: c_nn, did: d_nn}
+                for v_ in vm_ids:
+                    asg[v_] = True          # normal flow: the new-expression did not throw
+                for p_ in all_paths:
+                    if any(pev(c_, asg) not in (None, t_) for c_, t_ in p_.conds):
+                        continue
+                    npaths += 1
+                    evs = [showv(e_) for e_ in p_.events if not isinstance(e_, tuple)]
+                    has = lambda sub: any(sub in e_ for e_ in evs)
+                    keycopy = any('cacheKey' in e_ and 'P1->cacheKey' in e_ for e_ in evs)
+                    what = 'cache %s, dataset %s: ' % ('non-null' if c_nn else 'null', 'non-null' if d_nn else 'null')
+                    if c_nn and not has('setCache(P1)'):
+                        bad.append(what + 'setCache missing')
+                    if c_nn and has('setCache(P1)') and not keycopy:
+                        bad.append(what + 'the key of the bound cache is not recorded')
+                    if not c_nn and has('setCache(P1)'):
+                        bad.append(what + 'setCache called')
+                    if d_nn and not has('setDataset(P2)'):
+                        bad.append(what + 'setDataset missing')
+                    if not d_nn and has('setDataset(P2)'):
+                        bad.append(what + 'setDataset called')
+                    if not has('.allocate()') and not has('->allocate()'):
+                        bad.append(what + 'allocate() missing')
+    R.check(not bad and npaths >= 4, 'bind and allocate on every path', '%s:%d' % (f['file'], f['line']), expected='cache != nullptr -> setCache + key copy; dataset != nullptr -> setDataset; allocate() always', found=sorted(set(bad)) or '%d paths' % npaths)
 
 
 DS_TABLE = {
